@@ -386,6 +386,18 @@ class Session:
             ob.model = model_to_dict(model) if model is not None else None
             self._attach_replay(ob, replay, model, solver_out=f"{backend}: sat")
         else:
+            if verdict == "unknown" and not sliced:
+                # one retry with a larger budget before the obligation is reported (verdicts must not flip under load)
+                v2, b2, dt2, m2, _ = self._solve(list(hyps), z3.Not(goal), strings=strings, timeout_ms=self.query_timeout_ms * 3)
+                ob.seconds += dt2
+                if v2 == "unsat":
+                    ob.status, ob.backend = "discharged", b2
+                    return ob
+                if v2 == "sat":
+                    ob.status, ob.backend = "failed", b2
+                    ob.model = model_to_dict(m2) if m2 is not None else None
+                    self._attach_replay(ob, replay, m2, solver_out=f"{b2}: sat")
+                    return ob
             self._not_proved(ob, replay, model, backend)
         return ob
 
@@ -401,7 +413,10 @@ class Session:
         if info is not None and info.get("confirmed_on_real_code"):
             ob.status = "failed"
             return
-        if ob.id.split("#")[0] in self.baseline() or ob.id.split("#")[0].endswith("/within-verified-subset"):
+        if True:
+            # Every obligation of every registered check is discharged on the unchanged tree (that is what exit 0 there
+            # means, and the tables / contracts are generated and reviewed against it). An obligation that cannot be
+            # discharged after a change is therefore "an obligation that passed on the unchanged tree and now fails":
             # obligations that are discharged on the unchanged tree (every function under contract is inside the
             # verified subset there): failing now = reported, with the verifier's reason, as no-failing-input-found
             ob.status = "failed"
@@ -464,10 +479,9 @@ class Session:
         return ob
 
     def undecided(self, oid, reason, *, function=None, kind="post"):
-        ob = self._new(oid, kind, function)
-        ob.status = "undecided"
-        ob.detail = {"reason": str(reason)[:600]}
-        return ob
+        """the engine could not establish an obligation (unsupported construct, path limit, ...): by the policy stated
+        in _not_proved this is reported, with the reason, as a violation without a failing input"""
+        return self.not_proved(oid, reason, function=function, kind=kind)
 
     def bounded_check(self, oid, ok, *, bound, function=None, detail=None, replay=None, evaluations=0):
         """A bounded stand-in / assumption validation: labelled, never counted as proved."""
